@@ -59,6 +59,9 @@ type Ctx struct {
 	varByN map[string]*Term
 	tTrue  *Term
 	tFalse *Term
+	// factorSimp: keep constant factors together in products and cancel them against constant divisors (helps the
+	// fixed-point decimal arithmetic of cosmossdk.io/math; off by default because it reshapes nonlinear terms)
+	factorSimp bool
 }
 
 func NewCtx() *Ctx {
@@ -439,7 +442,11 @@ func (c *Ctx) constFactor(t *Term) (*big.Int, *Term) {
 
 // divisibleBy: is t syntactically a multiple of the positive constant d (a product with a constant factor d | k, or a
 // sum of such terms)?  Returns the quotient term.
+
 func (c *Ctx) divisibleBy(t *Term, d *big.Int) (*Term, bool) {
+	if !c.factorSimp {
+		return nil, false
+	}
 	if t.op == "+" && len(t.args) == 2 {
 		q0, ok0 := c.divisibleBy(t.args[0], d)
 		q1, ok1 := c.divisibleBy(t.args[1], d)
@@ -464,7 +471,7 @@ func (c *Ctx) Mul(a, b *Term) *Term {
 		return c.IntBig(new(big.Int).Mul(a.cInt, b.cInt))
 	}
 	// keep constant factors together: (k1*x)*k2 -> (k1*k2)*x, so that later divisions by constants can cancel
-	if (a.isConst && b.op == "*") || (b.isConst && a.op == "*") {
+	if c.factorSimp && ((a.isConst && b.op == "*") || (b.isConst && a.op == "*")) {
 		k, x := a, b
 		if b.isConst {
 			k, x = b, a
@@ -741,8 +748,8 @@ func (c *Ctx) collectDefs(roots []*Term, out *strings.Builder) {
 		for _, a := range t.args {
 			visit(a)
 		}
-		if (t.op == "div" || t.op == "mod") && len(t.args) == 2 && t.args[1].isConst && t.args[1].cInt.Sign() > 0 {
-			// division by a positive constant as a linear quotient/remainder definition: the incremental core of z3
+		if (t.op == "div" || t.op == "mod") && len(t.args) == 2 && t.args[1].isConst && t.args[1].cInt.BitLen() > 40 && new(big.Int).Rem(t.args[1].cInt, big.NewInt(1000000000)).Sign() == 0 {
+			// division by a large positive constant (fixed-point scale 10^18) as a linear quotient/remainder definition: the incremental core of z3
 			// handles this far better than the div/mod operators (one-shot fallback scripts keep the operators)
 			a, cst := t.args[0].ref(), smtInt(t.args[1].cInt)
 			q, r := fmt.Sprintf("t%d", t.id), fmt.Sprintf("t%d_r", t.id)
